@@ -2,6 +2,7 @@ package harness
 
 import (
 	"fmt"
+	"sort"
 	"testing"
 
 	"github.com/kelindar/column"
@@ -262,4 +263,99 @@ func TestC12Parallel(t *testing.T) {
 		}
 		RecordCase("C12", fmt.Sprintf("free-parallel workers=%d keys=%d ops=%d prefill=%d", workers, nkeys, ops, prefill), workers >= 2 && nkeys <= 2*workers, "free-parallel")
 	})
+}
+
+// TestC12Interleaved: a second "transaction stream" B commits single key
+// operations INSIDE the body of transaction A, between A's steps (same
+// goroutine, no lock is held there) - a deterministic stand-in for a concurrent
+// writer. B only creates fresh keys ("b<n>") and updates rows, it never deletes or
+// re-keys, so nothing A has looked up goes stale (finding f26 is not touched) and
+// no absent key gets two creators (finding f17). A may use B's keys once they
+// exist. Oracle: every step's outcome against the committed table at issue time;
+// after A commits (or rolls back) the reference map.
+func TestC12Interleaved(t *testing.T) {
+	rapid.Check(t, func(t *rapid.T) {
+		sch := genSchema(t, SchemaCfg{Key: 2, MinCols: 1, MaxCols: 2, Kinds: []Kind{KInt, KString, KBool}, Capacities: []int{1, 64, 1024}})
+		mc := NewMachine("C12", sch, column.Options{})
+		defer mc.Close()
+		defer mc.Guard(t)
+		cfg := TxnCfg{Prop: "C12", MaxSteps: 6, Rollback: true, Deletes: true, Inserts: true, Merges: true, KeyOps: true,
+			NoStoreOnDel: KFActive("f11-store-and-delete-same-txn"), NoOpAfterLenMerge: KFActive("f15-difflen-merge-reorder")}
+		bSeq := 0
+		var bKeys []string
+		interleavings := 0
+		step := func(t *rapid.T) {
+			spec := genTxn(t, mc.M, mc.Recent, cfg)
+			// let some of A's key steps aim at keys B created earlier
+			for i := range spec.Steps {
+				st := &spec.Steps[i]
+				if len(bKeys) > 0 && (st.Kind == SQueryKey || st.Kind == SDeleteKey) && rapid.IntRange(0, 2).Draw(t, "use-b-key") == 0 {
+					st.Key = bKeys[rapid.IntRange(0, len(bKeys)-1).Draw(t, "b-key")]
+					st.Fail = false
+				}
+			}
+			// B's operations, by the step of A after which they run
+			bOps := map[int][]Step{}
+			for i := range spec.Steps {
+				if spec.FailAt >= 0 && i > spec.FailAt {
+					break
+				}
+				if rapid.IntRange(0, 2).Draw(t, "b-here") == 0 {
+					bSeq++
+					bOps[i] = append(bOps[i], Step{Kind: SInsertKey, Key: fmt.Sprintf("b%d", bSeq), Stores: genStores(t, mc.M, cfg, 0, 2, "b-ins")})
+				}
+			}
+			mc.logf("A: %s  with B's commits interleaved after steps %v", sch.renderTxn(spec), sortedKeys(bOps))
+			res := make([]StepResult, len(spec.Steps))
+			var verr error
+			_, err := execTxnObs(mc.C, sch, mc.M.ColLive, spec, func(i int, txn *column.Txn, r []StepResult) {
+				copy(res, r)
+				// A's step i against the committed table right now
+				if verr == nil {
+					_, verr = mc.M.CheckAndApply(TxnSpec{Steps: []Step{spec.Steps[i]}, FailAt: -1}, []StepResult{r[i]}, false)
+				}
+				for _, b := range bOps[i] {
+					bspec := TxnSpec{Steps: []Step{b}, FailAt: -1}
+					bres, berr, _ := execDirect(mc.C, sch, mc.M.ColLive, bspec)
+					if berr != nil && verr == nil {
+						verr = fmt.Errorf("B's %s failed: %v", sch.renderStep(b), berr)
+					}
+					if _, e := mc.M.CheckAndApply(bspec, bres, true); e != nil && verr == nil {
+						verr = fmt.Errorf("B's %s (committed while A is in flight): %v", sch.renderStep(b), e)
+					}
+					bKeys = append(bKeys, b.Key)
+					mc.logf("  B after A's step %d: %s -> row %d", i, sch.renderStep(b), bres[0].Offset)
+					interleavings++
+				}
+			})
+			if verr != nil {
+				mc.fail(t, "%v", verr)
+			}
+			committed := err == nil
+			if (spec.FailAt >= 0) == committed {
+				mc.fail(t, "Query returned err=%v for a body that returned error=%v", err, spec.FailAt >= 0)
+			}
+			// SOwnUpdate steps are not generated with KeyOps-only configs that need res of earlier steps; apply A as a whole
+			if _, e := mc.M.CheckAndApply(spec, res, committed); e != nil {
+				mc.fail(t, "%v", e)
+			}
+			mc.CheckCount(t)
+			mc.CheckKeys(t, bKeys...)
+			mc.checkNoDuplicateKeys(t)
+			if len(mc.M.Rows) <= 300 {
+				mc.CheckFull(t, false)
+			}
+		}
+		t.Repeat(map[string]func(*rapid.T){"txn": step})
+		RecordCase("C12", mc.Desc(), interleavings > 0, "interleaved-writer")
+	})
+}
+
+func sortedKeys(m map[int][]Step) []int {
+	var out []int
+	for k := range m {
+		out = append(out, k)
+	}
+	sort.Ints(out)
+	return out
 }
